@@ -2,6 +2,7 @@
 """Run EVERY quick check against every seeded change (applied to $VERIF_REPO, default /repo; reverted straight after).
 usage: cross_matrix.py [CHANGE_ID ...]   writes seeded/CROSS.json {change: {check: rc}} in the current /verif checkout."""
 import json, os, subprocess, sys, time
+os.environ["VERIF_EVIDENCE_DIR"] = "/tmp/verif_mutant_evidence"  # never clobber the real tree's evidence
 HERE = os.path.dirname(os.path.dirname(os.path.abspath(__file__)))
 REPO = os.environ.get("VERIF_REPO", "/repo")
 SEEDED = os.path.join(HERE, "seeded")
